@@ -47,11 +47,17 @@ CLAIMS['C04'] = ('Bounded model checking of the terminal cases and short cuts of
                  '0 / true / non-terminal, every level L in [-3,3] and incoming index: the answer denotes the pointwise OR / AND / AND-NOT / NOT under the rules\' meaning of '
                  'skipped levels (constant vs identity pattern). COPY, redundant/identity chain building and the operation registries are stand-ins; the recursion over nodes, '
                  'compute-table use, cross product and operand immutability are not covered (whole-library level).', 'DESIGN.md 11.2 C04')
+CLAIMS['C17'] = ('Bounded model checking of the registries behind lifecycle safety, real code (forest.cc: registerForest / unregisterForest / getForestWithID / registerEdge / '
+                 'unregisterEdge / unregisterDDEdges / markForDeletion; dd_edge.cc: constructors, attach / detach, copy, assignment, destructor) over forest records: every '
+                 'history of K steps from {create forest, destroy forest, construct edge, attach, assign, destroy edge} over 3 forests and 3 edges (K = 3, 4 quick; 5, 6 thorough): '
+                 'edges report exactly their owner, destroying a forest leaves its edges inert (no forest, node 0), root lists hold exactly the attached edges with consistent '
+                 'links, forest identifiers are positive, never issued twice, and dead identifiers resolve to no forest. Stand-ins: the domain\'s own std::set registry, per-forest '
+                 'unpacked-node lists, std::string label assignment, growth of the registry vector (capacity reserved). Not covered: operation / compute-table teardown, '
+                 'initialize/cleanup cycles, errors raised when a detached edge is used (whole-library level).', 'DESIGN.md 11.2 C17')
 for p, why in [
     ('C03', 'construction from minterms and evaluation'), ('C07', 'compute tables inside operations; a component harness (harness/c07_ct.cc: real ct_styles.cc table with 8 buckets via hook H4, real node headers, 3 symbolic steps) was built and measured: '
             'symbolic execution alone did not finish in 50 min / ran out of 20 GB, because of std::vector growth, entry deletion and handle recycling loops over symbolic table state'),
     ('C08', 'reachability fixed points'), ('C09', 'image operations over relation nodes'), ('C11', 'iterators and cardinality over real forests'),
-    ('C13', 'variable reordering of real forests'), ('C15', 'index-set conversion and lookup over real forests'),
-    ('C17', 'library/domain/forest lifecycles'), ('C20', 'saturation over partitioned relations')]:
+    ('C13', 'variable reordering of real forests'), ('C15', 'index-set conversion and lookup over real forests'), ('C20', 'saturation over partitioned relations')]:
     NA[p] = L3 + 'no leaf kernel of this property (%s) is separable from that set-up, so no solver-decided check is claimed.' % why
 NA['C14'] = 'depends on libc/libstdc++ text formatting and parsing (fprintf/%e, istream) that cannot be encoded; stubbing it would assume the property'
